@@ -112,6 +112,9 @@ pub fn check_case(body: &[u8], filters: &[FilterSpec], headers: &Headers, stats:
 }
 
 pub fn replay(case: &Value) -> Vec<String> {
+    if let Some(r) = super::big::replay("C03", case) {
+        return r;
+    }
     let body: Vec<u8> = serde_json::from_value(case["body"].clone()).unwrap_or_default();
     let filters: Vec<FilterSpec> = serde_json::from_value(case["filters"].clone()).unwrap_or_default();
     let headers: Headers = serde_json::from_value(case["headers"].clone()).unwrap_or_default();
@@ -252,7 +255,10 @@ pub fn run(tier: Tier) -> i32 {
             });
         }
     });
+    let (big_cases, big_schedules) = super::big::run(&ctx, "C03", tier == Tier::Thorough);
     let mut cov = Coverage::new();
+    cov.set("size_threshold_pass", json!({"cases": big_cases, "schedules_executed": big_schedules, "run_lengths": super::big::runs(tier == Tier::Thorough), "constructs": super::big::CONSTRUCTS.iter().map(|c| format!("{c:?}")).collect::<Vec<_>>(),
+        "what": "generated documents with one long run inside one construct; one chunk vs strides 1000..100000 and single cuts around the run"}));
     let st = states.load(Ordering::Relaxed);
     let tr = transitions.load(Ordering::Relaxed);
     cov.set("states", json!(st))
